@@ -74,6 +74,8 @@ fn build_from_parsed(
 
 pub fn build_str(source: &str) -> Result<BuildResult, Error> {
     let common_context = CommonContext::new();
+    #[cfg(feature = "verif")]
+    let _verif_scope = crate::verif::build_scope(&common_context);
 
     let parsed = parse_str(source, &common_context)?;
 
@@ -82,6 +84,8 @@ pub fn build_str(source: &str) -> Result<BuildResult, Error> {
 
 pub fn build_file(path: PathBuf, paths: Paths) -> Result<BuildResult, Error> {
     let common_context = CommonContext::new();
+    #[cfg(feature = "verif")]
+    let _verif_scope = crate::verif::build_scope(&common_context);
 
     let parsed = parse_file(path, paths, &common_context)?;
 
